@@ -92,7 +92,7 @@ func (d *director) collect(i int, block bool) (string, bool) {
 	if block {
 		select {
 		case r = <-p.pending:
-		case <-time.After(10 * time.Second):
+		case <-time.After(30 * time.Second):
 			d.stuck = true
 			return "", false
 		}
@@ -123,7 +123,7 @@ func (d *director) collect(i int, block bool) (string, bool) {
 
 // settle waits until every outstanding call has either returned or is queued on a semaphore.
 func (d *director) settle(got map[int]string) search.VerifSemaSnap {
-	deadline := time.Now().Add(10 * time.Second)
+	deadline := time.Now().Add(30 * time.Second)
 	for spins := 0; ; spins++ {
 		for i := range d.procs {
 			if l, ok := d.collect(i, false); ok {
@@ -388,7 +388,7 @@ func emitDir(w *gen.Writer, dc dirCase, impl string, d *director, class string) 
 	if d.panic != "" {
 		c.Go, c.Key = "panic in scheduler call: "+d.panic, "panic"
 	} else if d.stuck {
-		c.Go, c.Key = "a call neither returned nor queued within 10s (or a cancelled call did not return)", "stuck"
+		c.Go, c.Key = "a call neither returned nor queued within 30s (or a cancelled call did not return)", "stuck"
 	}
 	if strings.Contains(impl, "b/") {
 		w.Count("dir:some-call-blocked", 1)
